@@ -125,6 +125,16 @@ func c13Check(c c13Case) fw.Outcome {
 			return fw.Failf(label, "polygon approximation has a NaN position (centre (%v,%v) radius %v)", lat, lon, r)
 		}
 	}
+	// the Circle's own rectangle is the tight box of the positions of its approximation (C11 read for a Circle)
+	tight := geometry.Rect{Min: ext.PointAt(0), Max: ext.PointAt(0)}
+	for i := 1; i < n; i++ {
+		p := ext.PointAt(i)
+		tight.Min.X, tight.Min.Y = math.Min(tight.Min.X, p.X), math.Min(tight.Min.Y, p.Y)
+		tight.Max.X, tight.Max.Y = math.Max(tight.Max.X, p.X), math.Max(tight.Max.Y, p.Y)
+	}
+	if got := circ.Rect(); got != tight {
+		return fw.Failf(label, "Circle.Rect() = %v, the tight box of the %d positions of its polygon approximation (steps %d) is %v", got, n, c.Steps, tight)
+	}
 	if rc := poly.Rect(); !rc.ContainsPoint(centre) {
 		return fw.Failf(label, "the rectangle %v of the polygon approximation does not contain the centre (%v,%v), radius %v", rc, lon, lat, r)
 	}
@@ -179,7 +189,7 @@ func c13Gen(t *rapid.T) c13Case {
 		c.R2 = F(piR)
 	}
 	c.Lat, c.Lon, c.R, c.PLat, c.PLon = F(lat), F(lon), F(r), F(plat), F(plon)
-	c.Steps = rapid.SampledFrom([]int{-1, 0, 2, 3, 4, 64, 64, 64, 4096}).Draw(t, "steps")
+	c.Steps = rapid.SampledFrom([]int{-1, 0, 2, 3, 4, 5, 6, 7, 10, 64, 64, 64, 99, 4096}).Draw(t, "steps")
 	return c
 }
 
